@@ -50,6 +50,17 @@ theorem C12_latest_value (old new : List (String × Val)) (a : String) :
          | none => some v) :=
   mergeAttrs_lookup old new a
 
+/-- **`get_track`** after any history: the track of the vessel — with the attributes and the
+`last_updated` the abstract tracker holds for it — or `None` when the vessel has none. -/
+theorem C12_get_track (ordered : Bool) (ttl : Option Int) (ops : List TrkOp) (m : Int) :
+    ((getTrack (trkRun ordered ttl ops).st m).map fun t => ({ attrs := t.attrs, lu := t.lu } : ATrack)) =
+      (AState.run ordered ttl ops).get m ∧
+    (∀ t, getTrack (trkRun ordered ttl ops).st m = some t → t.mmsi = m ∧ t ∈ (trkRun ordered ttl ops).st.tracks) := by
+  refine ⟨((C12_refines ordered ttl ops).get m).symm, ?_⟩
+  intro t ht
+  unfold getTrack at ht
+  exact ⟨by simpa using List.find?_some ht, List.mem_of_find?_eq_some ht⟩
+
 /-- non-vacuity: two vessels, an out-of-order update that is rejected in ordered mode -/
 example :
     (trkRun true none [.update 1 [("speed", .flt 5)] (some 10), .update 2 [("speed", .none)] (some 5),
@@ -64,4 +75,5 @@ example :
 #print axioms C12_verdicts
 #print axioms C12_rejected_is_noop
 #print axioms C12_latest_value
+#print axioms C12_get_track
 end C12
